@@ -2,7 +2,7 @@ ID = "C14"
 CLUSTER = "trav"
 EXTRACT_V = "ExtractTrav.v"
 MODEL_DEPS = ["Base/Bytes.v", "Base/GoSem.v", "Gen/FromGo.v", "DM/Value.v", "Trav/Selector.v", "Trav/Walk.v",
-              "Trav/Controls.v", "Trav/Path.v", "Trav/SelectorSpec.v", "Trav/QuirkFree.v"]
+              "Trav/Controls.v", "Trav/Path.v", "Trav/SelectorSpec.v", "Trav/QuirkFree.v", "Trav/Total.v"]
 DRIVER = "trav_driver"
 HARNESS = "c14"
 COUNTS = {"quick": 700, "thorough": 50000}
